@@ -83,6 +83,8 @@ function makeHost(opts) {
   const setT = (fn, ms, ...a) => { const id = ++st.seq; ms = +ms; if (!(ms >= 0)) ms = 0; st.timers.push({ id, at: st.clock + ms, fn, a }); return id; };
   const clearT = (id) => { const i = st.timers.findIndex(t => t.id === id); if (i >= 0) st.timers.splice(i, 1); };
   for (const [k, v] of [['setTimeout', setT], ['clearTimeout', clearT], ['setImmediate', (fn, ...a) => setT(fn, 0, ...a)]]) Object.defineProperty(g, k, { value: v, writable: true, enumerable: false, configurable: true });
+  // programs must not observe function source text: neutralise it inside the context
+  vm.runInContext('Object.defineProperty(Function.prototype, "toString", { value: function toString() { return "function () { [source] }"; }, writable: false, configurable: false });', ctx);
   st.ctx = ctx;
   return st;
 }
